@@ -1,6 +1,6 @@
 (* C13 -- Multi-cause errors behave as a tree.  Statements only. *)
 From Errv Require Import Base.Str Model.Err Model.Sem Model.Marks Model.Std Model.Report Model.Codec Model.Build
-     Proofs.FastIs Proofs.MarksFacts Proofs.BuildFacts Proofs.CodecFacts.
+     Proofs.FastIs Proofs.MarksFacts Proofs.BuildFacts Proofs.CodecFacts Proofs.SpecText.
 
 (* Is succeeds exactly on the error itself or on at least one branch, in order *)
 Theorem C13_is : forall i k cs r,
@@ -32,6 +32,20 @@ Theorem C13_stdjoin_text : forall i cs,
   error_text (Multi i MStdJoin cs) = join [nl] (List.map error_text cs).
 Proof. exact stdjoin_text. Qed.
 Print Assumptions C13_stdjoin_text.
+
+(* the library's Join: the branch messages joined by newlines (one-line branches whose
+   text is plain; through the formatting engine, which is what Error() of a join runs) *)
+Theorem C13_join_text : forall i cs,
+  cs <> [] -> Forall one_line cs -> Forall agood cs ->
+  error_text (Multi i MJoin cs) = join [nl] (List.map error_text cs).
+Proof. exact mjoin_text. Qed.
+Print Assumptions C13_join_text.
+
+Example C13_join_example :
+  let a := Leaf 100%positive (LErrString (lit "a")) in
+  let b := Leaf 101%positive (LErrno 2%Z) in
+  error_text (Multi 102%positive MJoin [a; b]) = lit "a" ++ [nl] ++ lit "no such file or directory".
+Proof. vm_compute. reflexivity. Qed.
 
 (* on the wire: branch count and order are those of the error *)
 Theorem C13_wire_shape : forall e, enc_shape (encode e) = err_shape e.
